@@ -3,7 +3,11 @@ from registry_common import COMMON_ASSUME
 ENTRY = dict(
         title="Schedule edits touch exactly the addressed slots; commit sends the edited week",
         design_ref="DESIGN.md section 6 / C18",
+<<<<<<< HEAD
         prop_modules=["C18", "C18Heap", "C18Unaligned", "TieSchedule", "C18Time"],
+=======
+        prop_modules=["C18", "C18Heap", "C18Unaligned", "TieSchedule", "TieStructSchedules"],
+>>>>>>> r8-W1c
         technique="Lean 4 theorems over all days / bitmaps / edit sequences (model of set_state, the bitmap codec, the device's receive-edit-commit pipeline) + translator tables + correspondence with ScheduleDay.set_state and with a real EcoMAX device (handle_frame, Schedule objects, Schedule.commit)",
         level_text=(
             "Proof: `C18.set_exact` (a call succeeds iff state valid, times parse, end after start; the day afterwards differs exactly on slots lo..hi, "
@@ -27,6 +31,7 @@ ENTRY = dict(
             "SchedulesResponse payloads to a real EcoMAX, editing through its Schedule objects and comparing the queued SetScheduleRequest payload."),
         level_note="Time strings (round 8): Model/TimeParse.lean `parseTime` specifies datetime.strptime(s, '%H:%M') on ASCII strings (un-padded spellings included; non-ASCII: declined), validated against CPython exhaustively over all digit strings d:d, d:dd, dd:d, dd:dd; Props/C18Time.lean: `parse_spellings` (all 24x60x4 spellings), `midnight_spellings`, `set_spelled`, `set_exact_str`, `set_error_inert_str`, `set_bad_time`; the harness judges aligned times by VALUE in every spelling. `_get_time_range` / `ScheduleDay.set_state` themselves are NOT translated (nested functions, lru_cache, datetime arithmetic are outside the translator's subset): model <-> code tie for them stays differential. Trusted: Lean kernel; strptime as specified above (the set_state model still receives CPython's (hour, minute) result or 'unparsable'); model <-> code tie is differential; asyncio dispatch exercised under the virtual loop.",
         clauses={
+            "code tie of the schedule codec (round 8): the SOURCE TEXT of SchedulesStructure.encode / ._unpack_schedule / .decode and the SCHEDULES table, translated on every run, equals [1, idx, switch, parameter] ++ Sched.encodeWeek (days of any number and lengths; type a name of the table, switch / parameter ints 0..255 - bools, Parameter objects and text are not covered), Sched.decodeWeek, Sched.decodeResponse (every message, natural offsets, data None or a string-keyed dict), Gen.schedules; the payload of Sched.Device.commit is the translated encode of the collected data; a missing type key / unknown name is FrameDataError": "theorem (TieStructSchedules.schedules_encode_eq, encode_is_commit_payload, encode_missing_type, encode_unknown_type, unpack_schedule_eq, schedules_decode_eq, schedules_tbl) + translator validation (harness/pycode.py group schedule: encode / decode / _unpack_schedule vs CPython, value or exception class)",
             "set_state changes exactly the slots start..end (end 00:00 = last slot), sets them to the state, keeps 48 slots": "theorem",
             "times that are not half-hour aligned (legal '%H:%M' input the statement does not speak about): compared on exact minutes, exact-midnight rule, floored slot indexes; relation to the aligned call on the floored times": "theorem (set_exact_unaligned, unaligned_eq_floored, unaligned_same_slot, unaligned_early_end) + correspondence (minute sweep: all 1440 start minutes x boundary ends in quick, all 1440 x 1440 pairs in thorough, x 4 day/state combinations)",
             "invalid state / unparsable time / end not after start raises ValueError and changes nothing": "theorem (model) + correspondence (exception class of the implementation)",
